@@ -1543,6 +1543,7 @@ namespace bloch::runtime {
             std::cerr << "[ctor] " << cls->name << " done" << std::endl;
         }
 
+        m_returnValue = {};
         endScope();
         m_currentClassCtx = prevClass;
         m_inStaticContext = prevStatic;
@@ -1586,6 +1587,7 @@ namespace bloch::runtime {
             }
         }
         Value ret = m_returnValue;
+        m_returnValue = {};
         endScope();
         m_hasReturn = prevReturn;
         m_currentClassCtx = prevClass;
@@ -1612,6 +1614,7 @@ namespace bloch::runtime {
             }
         }
         Value ret = m_returnValue;
+        m_returnValue = {};
         endScope();
         m_hasReturn = prevReturn;
         return ret;
